@@ -71,6 +71,12 @@ func (w *textWriter) WriteNull() error {
 
 // WriteNullType writes a typed null.
 func (w *textWriter) WriteNullType(t Type) error {
+	if w.err == nil && int(t) >= len(textNulls) {
+		w.err = &UsageError{"Writer.WriteNullType", "not an Ion type"}
+	}
+	if w.err != nil {
+		return w.err
+	}
 	return w.writeValue("Writer.WriteNullType", textNulls[t], writeRawString)
 }
 
